@@ -302,3 +302,41 @@ Definition audited_map_sites : list str := [
 ].
 Lemma map_sites_covered : forallb (fun s => Model.Action.in_strs s audited_map_sites) map_range_sites = true.
 Proof. vm_compute. reflexivity. Qed.
+
+(* ---------- one MultiParts stage: its output does not depend on the order in which the map hands
+   out its entries (the entries have distinct values: they are the map's keys) ---------- *)
+Definition vltb (a b : raw) : bool := str_ltb (value a) (value b).
+Lemma vltb_asym a b : vltb a b = true -> vltb b a = false.
+Proof.
+  unfold vltb. intro H. destruct (str_ltb (value b) (value a)) eqn:E; [|reflexivity].
+  pose proof (str_ltb_trans _ _ _ H E) as T. rewrite str_ltb_irrefl in T. discriminate.
+Qed.
+Lemma vle_trans x y z : le vltb x y -> le vltb y z -> le vltb x z.
+Proof.
+  unfold le, vltb. intros H1 H2.
+  destruct (str_ltb (value z) (value x)) eqn:E; [|reflexivity]. exfalso.
+  destruct (str_trichotomy (value y) (value z)) as [T|[T|T]].
+  - pose proof (str_ltb_trans _ _ _ T E). congruence.
+  - rewrite T in H1. congruence.
+  - congruence.
+Qed.
+Theorem multiparts_stage_order_independent (l1 l2 : list raw) :
+  NoDup (map value l1) -> Permutation l1 l2 -> isort_by vltb l1 = isort_by vltb l2.
+Proof.
+  intros Hnd Hp.
+  apply (sorted_perm_unique vltb vle_trans).
+  - intros x y Hx Hy Hne.
+    assert (Hv : value x <> value y).
+    { intro E. apply Hne. rewrite isort_In in Hx, Hy. clear -Hnd Hx Hy E.
+      induction l1 as [|a l IH]; [destruct Hx|]. simpl in Hnd. inversion Hnd as [|? ? Hn Hd]; subst.
+      destruct Hx as [Ex|Hx], Hy as [Ey|Hy].
+      - congruence.
+      - subst a. exfalso. apply Hn. rewrite E. apply in_map. exact Hy.
+      - subst a. exfalso. apply Hn. rewrite <- E. apply in_map. exact Hx.
+      - apply IH; assumption. }
+    unfold vltb. destruct (str_trichotomy (value x) (value y)) as [T|[T|T]]; [auto|contradiction|auto].
+  - apply (NoDup_map_inv value). eapply Permutation_NoDup; [apply Permutation_map, Permutation_sym, isort_perm|exact Hnd].
+  - rewrite isort_perm, Hp. symmetry. apply isort_perm.
+  - apply isort_sorted. apply vltb_asym.
+  - apply isort_sorted. apply vltb_asym.
+Qed.
